@@ -45,6 +45,16 @@ func gRoll(rt *rapid.T, label string) int { return gInt(rt, 0, 99, label) }
 func gPick[T any](rt *rapid.T, pool []T, label string) T { return pool[gInt(rt, 0, len(pool)-1, label)] }
 func gPct(rt *rapid.T, p int) bool                      { return gRoll(rt, "pct") < p }
 
+// gGrpc lets each connection talk protobuf with probability pct (the gRPC endpoint's conversion in
+// both directions, wConfig.Grpc): every oracle applies to such a connection unchanged.
+func gGrpc(rt *rapid.T, p *wProg, pct int) {
+	for k := range p.Sess {
+		if gPct(rt, pct) {
+			p.Cfg.Grpc = append(p.Cfg.Grpc, k)
+		}
+	}
+}
+
 var gLayouts = [][]int{{0, 1}, {0, 0, 1}, {0, 1, 2}, {0, 0, 1, 2}, {0, 1, 1, 2}, {0, 1, 2, 2}}
 
 // gPrologue creates group g0 (owner: session 0 / user 0), subscribes the others with some
@@ -96,6 +106,7 @@ func c01Gen(rt *rapid.T) wProg {
 	p := wProg{}
 	p.Cfg = wConfig{Users: 3, Root: gPct(rt, 30), Media: true}
 	p.Sess = append([]int(nil), gPick(rt, gLayouts, "layout")...)
+	gGrpc(rt, &p, 20)
 	gPrologue(rt, &p, 20, 85, 60)
 	p.Ops = append(p.Ops, wOp{K: "upload", S: 0}, wOp{K: "upload", S: 0})
 	n := gInt(rt, 2, 14, "nops")
